@@ -33,6 +33,26 @@ type Case struct {
 	PerInstance bool    `json:"rps_per_instance"`
 	Discard     bool    `json:"discard_overflow"`
 	ShotMs      []int   `json:"response_ms"` // cyclic per gun
+	// Dense: several thousand tokens per second for a fraction of a second and responses of 0-900 us, so that an
+	// instance keeps arriving at its next token less than a millisecond ahead of time (ShotUs replaces ShotMs)
+	Dense  bool  `json:"dense,omitempty"`
+	ShotUs []int `json:"response_us,omitempty"`
+}
+
+func genDense(t *rapid.T) Case {
+	c := Case{Dense: true}
+	c.Instances = rapid.IntRange(1, 3).Draw(t, "instances")
+	c.PerInstance = rapid.Bool().Draw(t, "perInstance")
+	c.Discard = rapid.Bool().Draw(t, "discard")
+	d := int64(rapid.IntRange(60, 250).Draw(t, "durMs")) * int64(time.Millisecond)
+	rate := float64(rapid.SampledFrom([]int{700, 1500, 2500, 4000, 6000}).Draw(t, "rate"))
+	if rapid.Bool().Draw(t, "line") {
+		c.Profile = sg.Node{Kind: "line", From: rate * 0.5, To: rate * 1.5, DurNs: d}
+	} else {
+		c.Profile = sg.Node{Kind: "const", From: rate, DurNs: d}
+	}
+	c.ShotUs = rapid.SliceOfN(rapid.SampledFrom([]int{0, 0, 50, 150, 300, 600, 900}), 1, 4).Draw(t, "responsesUs")
+	return c
 }
 
 func genProfile(t *rapid.T, maxTok int) sg.Node {
@@ -92,6 +112,10 @@ func check(c Case, o *vf.Obs) error {
 		if d := time.Duration(ms) * time.Millisecond; d > maxResp {
 			maxResp = d
 		}
+	}
+	if c.Dense {
+		shotUs = c.ShotUs
+		maxResp = time.Millisecond
 	}
 	prov := fake.NewProvider(fake.ProviderPlan{Total: -1, Queue: 4, AfterLast: "wait_ctx"})
 	guns := fake.NewGunWorld(fake.GunPlan{ShotUs: shotUs, PanicAtShot: -1, FactoryErrAt: -1, BindErrAt: -1})
@@ -175,7 +199,7 @@ func check(c Case, o *vf.Obs) error {
 	if !c.Discard && discards > 0 {
 		return fmt.Errorf("%d requests reported as discarded although discard_overflow is off", discards)
 	}
-	late12, late23, late3, lateOver1 := 0, 0, 0, 0
+	late12, late23, late3, lateOver1, onTime := 0, 0, 0, 0, 0
 	for g, evs := range byG {
 		sort.SliceStable(evs, func(i, j int) bool { return evs[i].at.Before(evs[j].at) })
 		for i := 0; i < len(evs); i++ {
@@ -192,6 +216,9 @@ func check(c Case, o *vf.Obs) error {
 				return fmt.Errorf("request fired %v BEFORE its scheduled time (scheduled t+%v, fired t+%v)", Tt.Sub(B), Tt.Sub(t0), B.Sub(t0))
 			}
 			lateA, lateB := A.Sub(Tt), B.Sub(Tt)
+			if out.kind == "shot" && lateB < time.Millisecond {
+				onTime++ // the instance was waiting for this token: fired within a millisecond after its time
+			}
 			switch {
 			case lateA >= 3*time.Second:
 				late3++
@@ -222,14 +249,24 @@ func check(c Case, o *vf.Obs) error {
 	o.ClassIf(!c.Discard, "discard_off")
 	o.ClassIf(discards > 0, "discards_seen")
 	o.ClassIf(c.PerInstance, "per_instance")
-	if lateOver1 > 0 {
+	o.ClassIf(c.Dense, "dense_profile")
+	o.ClassIf(onTime >= 10, "shots_within_1ms_after_their_time")
+	if lateOver1 > 0 || (c.Dense && onTime >= 10) {
 		o.NonTrivial()
 	}
+	o.Note("fired_within_1ms_after_token_time", onTime)
 	o.Note("tokens", tokens)
 	o.Note("fired", fired)
 	o.Note("discarded", discards)
 	o.Note("run_s", time.Since(t0).Seconds())
 	return nil
+}
+
+// TestNoEarlyShotDense: "no request is fired before its scheduled time" where instances arrive at their next token
+// a fraction of a millisecond early, thousands of times per second.
+func TestNoEarlyShotDense(t *testing.T) {
+	r := vf.Start(t, "C04")
+	vf.Batch(r, r.Pick(24, 240), 6, genDense, check)
 }
 
 func TestTiming(t *testing.T) {
